@@ -118,7 +118,7 @@ impl SubCheck for EarlyStop {
         "early_stop_reasons"
     }
     fn cases(&self, tier: Tier) -> u32 {
-        tier.pick(4000, 80000)
+        tier.pick(3000, 80000)
     }
     fn strategy(&self, tier: Tier) -> BoxedStrategy<GCase> {
         let mut p = GraphParams::small();
@@ -282,7 +282,7 @@ impl SubCheck for Depth {
         "target_max_depth"
     }
     fn cases(&self, tier: Tier) -> u32 {
-        tier.pick(4000, 80000)
+        tier.pick(3000, 80000)
     }
     fn strategy(&self, tier: Tier) -> BoxedStrategy<GCase> {
         let mut p = GraphParams::small();
